@@ -140,6 +140,12 @@ def _run_base(ctx):
                 if key and OWN.match(key):
                     ctx.inst('R18.2', fid, cons, True, 'unsets own key', c)
                     continue
+                if flag == '--unset-all':
+                    # the guard looks at ONE value (the effective one); --unset-all removes every value of a multi-valued key, foreign ones included
+                    ctx.inst('R18.2', fid, cons, False,
+                             '--unset-all on the shared key %s removes ALL its values: with `meld` and `nbdime` both configured (git config --add), the guard sees nbdime and the '
+                             'user\'s meld entry is deleted as well' % key, c)
+                    continue
                 # shared / foreign key: need a read of the same key compared with 'nbdime' guarding it
                 guards = cond_guards(g, st)
                 ok = False
